@@ -52,7 +52,7 @@ func ttlDur(c string) time.Duration {
 
 // Val is a scalar of the stated value domain: string (incl. JSON text) or int64.
 type Val struct {
-	T string `json:"t"` // "s" | "i"
+	T string `json:"t"` // "s" | "i" (int64) | "int" | "i32" | "u" (uint)
 	S string `json:"s,omitempty"`
 	I int64  `json:"i,omitempty"`
 }
@@ -64,8 +64,15 @@ func (v *Val) any() any {
 	if v == nil {
 		return nil
 	}
-	if v.T == "i" {
+	switch v.T {
+	case "i":
 		return v.I
+	case "int": // other Go integer kinds: differential hash fields only
+		return int(v.I)
+	case "i32":
+		return int32(v.I)
+	case "u":
+		return uint(v.I)
 	}
 	return v.S
 }
@@ -535,6 +542,14 @@ func canon(v any, typed bool) string {
 		return tag("int", strconv.FormatInt(x, 10))
 	case int:
 		return tag("int", strconv.Itoa(x))
+	case int32: // typed: every Go integer kind is "an integer with this exact value"
+		return tag("int", strconv.FormatInt(int64(x), 10))
+	case uint:
+		return tag("int", strconv.FormatUint(uint64(x), 10))
+	case uint32:
+		return tag("int", strconv.FormatUint(uint64(x), 10))
+	case uint64:
+		return tag("int", strconv.FormatUint(x, 10))
 	case float64:
 		if x == float64(int64(x)) {
 			return tag("float", strconv.FormatInt(int64(x), 10))
